@@ -1,7 +1,9 @@
 #!/bin/sh
-# entry point used by MANIFEST.json: builds the driver and runs it. cwd-independent.
+# entry point used by MANIFEST.json: builds the driver and runs it from the directory this script lives in
+# (normally /verif; a snapshot directory for background runs).
 set -e
-cd /verif
+cd "$(dirname "$0")"
+VERIF_ROOT="$(pwd)"; export VERIF_ROOT
 export GOFLAGS=-mod=mod GOPROXY=off GOSUMDB=off GOTOOLCHAIN=local
 mkdir -p .work/bin
 go build -o .work/bin/verif ./cmd/verif || { echo "BUILD-FAILED (driver)"; exit 2; }
